@@ -6,3 +6,4 @@ pub mod access;
 pub mod timelock;
 pub mod rwa;
 pub mod nft;
+pub mod policies;
